@@ -31,6 +31,9 @@ CHECKS["C10"] = ("exploration", "deterministic simulation with a simulated clock
 CHECKS["C08"] = ("exploration", "deterministic simulation: executable reference MAC model stepped by the device's own answers and compared with a state snapshot after every accepted Class A downlink; answer sequence / truncation / stickiness checked over the uplink history",
  "For every downlink accepted in RX1/RX2 the request stream is parsed independently, the next uplink's answers are decoded by the reference codec (FOpts or port 0), checked against the expected sequence (order, whole commands, LinkADRReq block copies, trailing-only truncation at 15 bytes), then the reference model applies exactly the fully acknowledged requests per RP002 and must equal the H1 snapshot (ACK => applied exactly, NAK => nothing changed); a closed list of unambiguously invalid requests must be rejected; sticky answers are followed across later uplinks with rejected and Class C frames in between. Field sweep complete in the thorough tier; histories sampled.",
  "Trusted: refmac.rs / refregion.rs (RP002 semantics written independently), the H1 snapshot (its externally visible consequences are cross-checked by C10 and C09). Requests whose answers were dropped for lack of room may or may not have been applied.", "6 (C08), Appendix A")
+CHECKS["C12"] = ("exploration", "deterministic simulation of long histories (hundreds of uplinks per run at microsecond cost): executable reference model of header bits, ADR counter and back-off compared uplink by uplink",
+ "Every uplink of seeded histories of up to 400 uplinks (all regions incl. data-rate gaps, both front-ends + Class C, rare accepted / confirmed / rejected downlinks, ADR toggles, data-rate overrides, re-joins) is decoded by the reference codec and compared with the model's DevAddr, MType, ACK, ADR, ADRACKReq and data rate; the data rate must never change unless the model says so. Sampling.",
+ "Trusted: reference codec, the model in props/c12.rs (written from the statement), reference verdicts for which downlinks count as accepted (C05 checks the device agrees). Count-dependent predictions are suspended after an ADR toggle or a mid-transaction Class C reception until the next RX1/RX2 downlink.", "6 (C12)")
 PENDING = {}
 
 def main():
